@@ -234,6 +234,21 @@ def run(index: RepoIndex, rep) -> None:
     w = walk_function(m.node)
     calls = [e for e in w.events if e.kind == 'call'
              and src(e.node.func) == 'self.outer_env.inner_env.set_seed']
+    if not calls:
+        # through a pass-through of the outer environment: `self.outer_env.set_seed(seed)`
+        # with OuterEnv.set_seed handing its own parameter to inner_env.set_seed, once
+        via = [e for e in w.events if e.kind == 'call'
+               and src(e.node.func) == 'self.outer_env.set_seed']
+        om = index.cls('gym_gridverse/outer_env.py', 'OuterEnv').methods.get('set_seed')
+        if len(via) == 1 and len(via[0].node.args) == 1 and om is not None:
+            ow = walk_function(om.node)
+            ops = [a.arg for a in om.node.args.args[1:]]
+            inner = [e for e in ow.events if e.kind == 'call'
+                     and src(e.node.func) == 'self.inner_env.set_seed']
+            if len(inner) == 1 and len(inner[0].node.args) == 1 and ops and \
+                    src(inner[0].node.args[0]) == ops[0] and \
+                    show(strip_iter(inner[0].guard)) == 'True' and not ow.defs.get(ops[0]):
+                calls = via
     rep.check(len(calls) == 1 and len(calls[0].node.args) == 1, 'C20.R6', GYM,
               'GymEnvironment.seed', m.node.lineno, '; '.join(src(c.node) for c in calls),
               'seed() does not forward a seed to inner_env.set_seed', 'seed')
